@@ -314,7 +314,8 @@ impl Report {
             .iter()
             .filter(|v| v["signature"].as_str() == Some(signature))
             .count();
-        if same < 3 && self.violations.len() < self.violation_cap {
+        let per_sig = std::env::var("VERIF_WITNESS_CAP").ok().and_then(|v| v.parse().ok()).unwrap_or(3usize);
+        if same < per_sig && self.violations.len() < self.violation_cap.max(per_sig * 4) {
             self.violations.push(json!({"signature": signature, "witness": witness}));
         }
         self.count(&format!("violation/{}", signature));
